@@ -162,6 +162,36 @@ func fillE2E(gs *gSchema, data interface{}) {
 	}
 }
 
+// otherFeatures: a feature set that differs from fs as much as possible in what it lets a request
+// see (none <-> all), so that a history [fs, other, fs] on one schema value changes the visible
+// types, fields and memberships between consecutive requests.
+func otherFeatures(fs []string) []string {
+	if len(fs) == len(featureUniverse) {
+		return []string{}
+	}
+	if len(fs) == 0 {
+		return append([]string(nil), featureUniverse...)
+	}
+	var out []string
+	for _, f := range featureUniverse {
+		if !subsetOf([]string{f}, fs) {
+			out = append(out, f)
+		}
+	}
+	return out
+}
+
+// history: further introspection requests on the SAME *schema.Schema value, after the request
+// with fs: [other, fs again].  Each is reported like the first request.
+func history(s *schema.Schema, fs []string) []sexp.Node {
+	var out []sexp.Node
+	for _, f := range [][]string{otherFeatures(fs), fs} {
+		data, nerr := introspectJSON(s, f)
+		out = append(out, sexp.T("then", sexp.T("features", names(f)), sexp.T("data", jsonSexp(data)), sexp.T("errors", sexp.Int(nerr))))
+	}
+	return out
+}
+
 func mustSchema(gs *gSchema) (*schema.SchemaDefinition, *schema.Schema) {
 	def := gs.build()
 	s, err := schema.New(def)
@@ -180,9 +210,13 @@ func introCase(r *rng.R, opt genOpt) sexp.Node {
 	_, s := mustSchema(gs)
 	data, nerr := introspectJSON(s, fs)
 	fillE2E(gs, data)
-	return sexp.T("case", sexp.Sym("intro"),
+	fields := []sexp.Node{sexp.Sym("intro"),
 		sexp.T("schema", gs.sexp()), sexp.T("features", names(fs)),
-		sexp.T("data", jsonSexp(data)), sexp.T("errors", sexp.Int(nerr)))
+		sexp.T("data", jsonSexp(data)), sexp.T("errors", sexp.Int(nerr))}
+	if !opt.NoGating {
+		fields = append(fields, history(s, fs)...)
+	}
+	return sexp.T("case", fields...)
 }
 
 func verdict(doc string, s *schema.Schema, fs []string) (v string) {
@@ -238,6 +272,13 @@ func rebuildCase(r *rng.R, opt genOpt, ndocs int) sexp.Node {
 			rebuilt = sexp.T("ok", abs, names(dups))
 		}
 	}
+	rhist := []sexp.Node{}
+	if s2 != nil {
+		for _, f := range [][]string{fs, otherFeatures(fs), fs} {
+			d, _ := introspectJSON(s2, f)
+			rhist = append(rhist, jsonSexp(d))
+		}
+	}
 	docs := []sexp.Node{}
 	if s2 != nil {
 		for i := 0; i < ndocs; i++ {
@@ -248,7 +289,7 @@ func rebuildCase(r *rng.R, opt genOpt, ndocs int) sexp.Node {
 	return sexp.T("case", sexp.Sym("rebuild"),
 		sexp.T("schema", gs.sexp()), sexp.T("features", names(fs)),
 		sexp.T("data", jsonSexp(generic.Data)), sexp.T("errors", sexp.Int(len(resp.Errors))),
-		sexp.T("rebuilt", rebuilt), sexp.T("docs", docs...))
+		sexp.T("rebuilt", rebuilt), sexp.T("rebuilt-history", rhist...), sexp.T("docs", docs...))
 }
 
 // cloneCase: Clone() of a definition, as pointer graphs, with the sharing walk and the
@@ -256,6 +297,7 @@ func rebuildCase(r *rng.R, opt genOpt, ndocs int) sexp.Node {
 func cloneCase(r *rng.R, opt genOpt) sexp.Node {
 	gs := genSchema(r, opt)
 	fs := features(r)
+	gs.Applied = opt.Applied
 	def, _ := mustSchema(gs)
 	ids := &idTable{ids: map[uintptr]int{}}
 	g0 := gabs(ids, def)
@@ -265,10 +307,12 @@ func cloneCase(r *rng.R, opt genOpt) sexp.Node {
 	cloneNew := "ok"
 	var data interface{}
 	nerr := 0
+	var hist []sexp.Node
 	if s2, err := schema.New(clone); err != nil {
 		cloneNew = "rejected"
 	} else {
 		data, nerr = introspectJSON(s2, fs)
+		hist = history(s2, fs)
 	}
 	fillE2E(gs, data)
 	// everything mutable in the clone is changed; the original must still be what it was.  (If the
@@ -282,11 +326,12 @@ func cloneCase(r *rng.R, opt genOpt) sexp.Node {
 		mutateEverything(clone)
 		return gabs(ids, def)
 	}()
-	return sexp.T("case", sexp.Sym("clone"),
+	fields := []sexp.Node{sexp.Sym("clone"),
 		sexp.T("schema", gs.sexp()), sexp.T("features", names(fs)),
 		sexp.T("orig", g0), sexp.T("clone", g1), sexp.T("orig-after", g0after),
 		sexp.T("shared", sharedSexp(shared)), sexp.T("clone-new", sexp.Sym(cloneNew)),
-		sexp.T("data", jsonSexp(data)), sexp.T("errors", sexp.Int(nerr)))
+		sexp.T("data", jsonSexp(data)), sexp.T("errors", sexp.Int(nerr))}
+	return sexp.T("case", append(fields, hist...)...)
 }
 
 // ---- exhaustive small domains (they come first) ----
@@ -404,7 +449,7 @@ func main() {
 		for i := 0; i < nc; i++ {
 			i := i
 			h.Case(func(r *rng.R) sexp.Node {
-				return cloneCase(r, genOpt{Size: i % 4, NoBeyond: i%9 != 5, Plain: true})
+				return cloneCase(r, genOpt{Size: i % 4, NoBeyond: i%9 != 5, Plain: true, Applied: i%2 == 1})
 			})
 		}
 		nr := 400
